@@ -437,7 +437,8 @@ pub fn run_fault(prop: &str, thorough: bool, case_seed: u64, sub: u64, cancel: O
         let stack = if src_vec { VEC_STACKS[w.below(VEC_STACKS.len())] } else { w.below(STACKS.len()) };
         let maxlen = if thorough { 12 } else { 8 };
         let len = w.below(maxlen + 1);
-        let limits: Vec<usize> = (0..3).map(|_| [0, 1, 1, 2, 2, 3, 4][w.below(7)]).collect();
+        // (a huge limit is a legal limit: nothing may be sized by it)
+        let limits: Vec<usize> = (0..3).map(|_| if w.chance(4) { [usize::MAX, usize::MAX / 2, usize::MAX / 8][w.below(3)] } else { [0, 1, 1, 2, 2, 3, 4][w.below(7)] }).collect();
         let takes: Vec<usize> = (0..3).map(|_| [0, 0, 1, 2, 3, 5, 9, 100][w.below(8)]).collect();
         let fallible = matches!(term, 1 | 3);
         let err_pct = if fallible { [0, 10, 25, 50, 100][w.below(5)] } else { 0 };
@@ -472,9 +473,23 @@ pub fn run_fault(prop: &str, thorough: bool, case_seed: u64, sub: u64, cancel: O
         s.push(Step::End);
         s
     });
+    // a non-fused source: it would yield further items if it were polled again after `None` (it must not be)
+    let src_resumable = !params.src_vec && w(|w| w.chance(15));
+    let src_script: Vec<Step> = if src_resumable {
+        let mut s = src_script;
+        let extra = 1 + w(|w| w.below(2));
+        for _ in 0..extra {
+            s.push(Step::Item);
+        }
+        s.push(Step::End);
+        s
+    } else {
+        src_script
+    };
     let src_never = src_script.contains(&Step::PendNever);
     w(|w| {
         let mut c = Child::leaf(Kind::LeafStr, if params.src_vec { vec![] } else { src_script.clone() });
+        c.resumable = src_resumable;
         if params.src_vec {
             c.created = false;
             c.never = false;
